@@ -78,7 +78,8 @@ class CipherScenario(Scenario):
         if st.vault and r < st.h["p_tamper"]:
             return {"op": "tamper", "item": rng.randrange(len(st.vault)),
                     "how": rng.choice(["short", "short", "unaligned", "unaligned", "method-unknown", "method-missing", "ct-not-str",
-                                       "bad-base64", "not-a-map", "method-empty", "ct-missing"]),
+                                       "bad-base64", "not-a-map", "method-empty", "ct-missing", "aligned-cut", "aligned-cut", "aligned-ext",
+                                       "iv-flip"]),
                     "n": rng.randrange(1, 40), "via": rng.choice(["keyfile", "field", "provider"])}
         if st.vault and r < st.h["p_tamper"] + 0.3:
             return {"op": "decrypt", "item": rng.randrange(len(st.vault)), "via": rng.choice(["keyfile", "provider", "field"]),
@@ -254,6 +255,42 @@ class CipherScenario(Scenario):
             ct2 = ct + bytes(extra) if n % 2 else ct[: max(33, len(ct) - extra)] if len(ct) - extra >= 32 else ct + bytes(extra)
             claim = method == "aes" and len(ct2) % 16 != 0
             stored["ciphertext"] = base64.b64encode(ct2).decode()
+        elif how in ("aligned-cut", "aligned-ext", "iv-flip"):
+            # block-aligned damage: what a standard AES-256-CBC/PKCS7 implementation does with it decides
+            if method != "aes" or len(ct) < 32:
+                rec.log("tamper", "n/a")
+                return
+            blocks = (len(ct) - 16) // 16
+            if how == "aligned-cut":
+                keep = (n % blocks) if blocks > 1 else 1
+                ct2 = ct[: 16 + 16 * max(1, keep)]
+            elif how == "aligned-ext":
+                ct2 = ct + bytes([(n * 7 + i) % 256 for i in range(16)])
+            else:
+                ct2 = bytes([ct[0] ^ (1 << (n % 8))]) + ct[1:]
+            try:
+                ref_out, ref_err = refcrypto.aes_cbc_decrypt(key, ct2[:16], ct2[16:]), None
+            except Exception as exc:  # noqa: BLE001
+                ref_out, ref_err = None, exc
+            if via == "provider":
+                out, err = self._call(lambda: AesProvider(key).decrypt(ct2))
+            else:
+                def run2():
+                    with KeyFile(it["kpath"]) as kf:
+                        return kf.decrypt(SecureValue("aes", ct2))
+                out, err = self._call(run2)
+            rec.log("tamper", how, via, type(err).__name__ if err else "ok", type(ref_err).__name__ if ref_err else "ok")
+            rec.kind(how + ":" + via)
+            rec.relevant += 1
+            rec.check()
+            rec.probe("tamper:" + how + (":ref-rejects" if ref_err else ":ref-accepts"))
+            st.world.fired.append((st.world.step, {"kind": "tamper-" + how, "seam": "stored-secret", "errno": ""}))
+            if (err is None) != (ref_err is None) or (err is None and out != ref_out):
+                rec.fail("C08/aes", "C08/differs-from-standard-aes-on-damaged-value/%s" % how,
+                         "a %s AES value: the library %s, a standard AES-256-CBC/PKCS7 implementation %s"
+                         % (how, "returned %r" % (out[:20],) if err is None else "raised %s" % type(err).__name__,
+                            "returns %r" % (ref_out[:20],) if ref_err is None else "rejects it (%s)" % type(ref_err).__name__))
+            return
         else:
             ct2 = ct
             via = "field" if how != "method-unknown" else via
@@ -304,7 +341,7 @@ def rng_choice(n, seq):
 # ======================================================================================= C09
 
 ALGS = ["md5", "sha1", "sha224", "sha256", "sha384", "sha512"]
-SECRETS = ["pw!one", "", "ünï!cöde", "x!" * 40, "a", "pass word!", "Pw!One", "\u0000nul!"]
+SECRETS = ["pw!one", "", "ünï!cöde", "x!" * 40, "a", "pass word!", "Pw!One", "\u0000nul!", "user:pass", "root:toor!", ":", "YWJj:ZGVm"]
 
 
 def neighbours(p):
@@ -391,6 +428,23 @@ class ChallengeScenario(Scenario):
         st.session += 1
         st.known = {}
         draws = w.draws[d0:]
+        # a second configuration of the same schema objects, in the same process: its plaintext defaults must
+        # get salts of their own (fresh draws made during *its* construction)
+        d1 = len(w.draws)
+        other = st.schema()
+        draws2 = w.draws[d1:]
+        for f in st.h["fields"]:
+            if f["default"] != "plain" or f["where"] == "list":
+                continue
+            a = self.get(st, f)
+            b = getattr(other.sub, f["key"]) if f["where"] == "sub" else getattr(other, f["key"])
+            rec.check()
+            self.check_digest(st, rec, f, b, f["dv"].encode(), "default-second-config")
+            if b.salt == a.salt:
+                rec.fail("C09/salt", "C09/salt-reused/default-across-configurations", "two configurations of one schema share the salt of a plaintext default")
+            if not any(d[3] == b.salt for d in draws2):
+                rec.fail("C09/salt", "C09/salt-not-a-fresh-draw/default-second-config", "the second configuration's default salt was not drawn during its construction")
+            rec.probe("second-config-default-salt-fresh")
         # defaults
         for f in st.h["fields"]:
             v = None if f["where"] == "list" else self.get(st, f)
